@@ -57,6 +57,15 @@ class Drift(Exception):
     """A contract no longer binds to the code (renamed/removed function, loop, variable)."""
 
 
+class Poison(object):
+    """value of a variable that a loop body assigns but the loop contract does not mention: a temporary of one
+    iteration.  Reading it (before the body has assigned it again) means it is loop-carried state the invariant
+    says nothing about: the contract has drifted.  Never read -> the proof does not depend on it."""
+
+    def __init__(self, name, loop):
+        self.name, self.loop = name, loop
+
+
 # --------------------------------------------------------------------------- state
 
 class Obligation(object):
@@ -543,6 +552,22 @@ def _is_data_model(v):
     return mod in _DATA_MODEL_MODULES or mod.split(".")[0] in ("contracts", "spec")
 
 
+_KEYED_METHODS = {"dict": ("get", "pop", "setdefault", "__contains__"),
+                  "set": ("add", "discard", "remove", "__contains__"), "frozenset": ("__contains__",),
+                  "list": ("index", "count", "remove", "__contains__")}
+
+
+def _symbolic_key(v):
+    """a value whose equality is decided symbolically (proxy scalar or data model), so that Python's identity
+    hashing / comparison of the proxy object would not be the modelled value's semantics"""
+    if isinstance(v, (SymInt, SymBool, SymReal)):
+        return True
+    if isinstance(v, tuple):
+        return any(_symbolic_key(x) for x in v)
+    mod = getattr(type(v), "__module__", "") or ""
+    return mod in ("pyvc.models", "pyvc.timemodel") or mod.split(".")[0] in ("contracts", "spec")
+
+
 def _is_engine_callable(f):
     """a callable that belongs to the verifier (model function, method of a model object, contract lambda)"""
     mod = getattr(f, "__module__", None) or ""
@@ -973,6 +998,12 @@ class Interp(object):
         if isinstance(selfv, str) and getattr(f, "__name__", "") == "join":
             from . import models as _M
             return _M.m_str_join(self, selfv, args[0])
+        if isinstance(selfv, (dict, set, frozenset, list)) and args and \
+                getattr(f, "__name__", "") in _KEYED_METHODS.get(type(selfv).__name__, ()):
+            probe = args[0]
+            keys = list(selfv.keys()) if isinstance(selfv, dict) else list(selfv)
+            if _symbolic_key(probe) or any(_symbolic_key(k) for k in keys[:64]):
+                return self._keyed_container_method(selfv, f.__name__, list(args), kwargs)
         if not _is_engine_callable(f):
             # a native function (builtin / library) without a model, applied to model objects: its Python-level
             # behaviour (hashing by identity, duck typing) is not the modelled type's semantics -> undecided
@@ -988,6 +1019,73 @@ class Interp(object):
         except _NATIVE_EXC as e:
             raise _native_failure(e, list(args) + list(kwargs.values()) + [getattr(f, "__self__", None)],
                                   "native %s" % getattr(f, "__name__", f))
+
+    def _keyed_container_method(self, c, name, args, kwargs):
+        """dict.get / pop / setdefault / __contains__, set.add / discard / remove, list.index / count / remove with a
+        key that is (or is compared against) a symbolic value: Python would hash / compare the proxy object by
+        identity; the method is executed with equality decided symbolically (case split), in container order"""
+        if kwargs:
+            raise Unsupported("%s.%s with keyword arguments on symbolic keys" % (type(c).__name__, name))
+        k = args[0]
+
+        def eq(a, b):
+            return self.truth(self.compare(ast.Eq, a, b))
+        if isinstance(c, dict):
+            hit = None
+            for key in list(c.keys()):
+                if eq(k, key):
+                    hit = key
+                    break
+            if name == "get":
+                return c[hit] if hit is not None or (hit is None and None in c and k is None) else (args[1] if len(args) > 1 else None)
+            if name == "__contains__":
+                return hit is not None
+            if name == "setdefault":
+                if hit is not None:
+                    return c[hit]
+                c[k] = args[1] if len(args) > 1 else None
+                return c[k]
+            if name == "pop":
+                if hit is not None:
+                    return c.pop(hit)
+                if len(args) > 1:
+                    return args[1]
+                raise ProgExc(KeyError, "pop")
+        elif isinstance(c, (set, frozenset)):
+            hit = [x for x in list(c) if eq(k, x)]
+            if name == "__contains__":
+                return bool(hit)
+            if name == "add":
+                if not hit:
+                    c.add(k)
+                return None
+            if name == "discard":
+                for x in hit:
+                    set.discard(c, x)
+                return None
+            if name == "remove":
+                if not hit:
+                    raise ProgExc(KeyError, "remove")
+                for x in hit:
+                    set.discard(c, x)
+                return None
+        elif isinstance(c, list):
+            if name == "__contains__":
+                return any(eq(k, x) for x in c)
+            if name == "count":
+                return sum(1 for x in c if eq(k, x))
+            if name == "index":
+                for i, x in enumerate(c):
+                    if eq(k, x):
+                        return i
+                raise ProgExc(ValueError, "not in list")
+            if name == "remove":
+                for i, x in enumerate(c):
+                    if eq(k, x):
+                        del c[i]
+                        return None
+                raise ProgExc(ValueError, "not in list")
+        raise Unsupported("%s.%s on symbolic keys" % (type(c).__name__, name))
 
     def call_function(self, f, args, kwargs):
         hook = self.contracts_at_calls.get(f.qualname)
@@ -1411,12 +1509,21 @@ class Interp(object):
                     names.add(x.id)
         return names
 
+    def _inv(self, spec, env, k, st, qual=""):
+        try:
+            return spec.invariant(env, k, st)
+        except KeyError as e:
+            raise Drift("the invariant of loop %s %s refers to variable %s, which the code no longer has"
+                        % (spec.name, qual, e))
+        except AttributeError as e:
+            raise Drift("the invariant of loop %s %s no longer fits the loop's state (%s)" % (spec.name, qual, e))
+
     def _check_inv(self, spec, env, k, st, phase, qual):
-        for (nm, v) in spec.invariant(env, k, st):
+        for (nm, v) in self._inv(spec, env, k, st, qual):
             st.check("%s/loop[%s]/%s/%s" % (qual, spec.name, phase, nm), v, kind="invariant-" + phase)
 
     def _assume_inv(self, spec, env, k, st):
-        for (nm, v) in spec.invariant(env, k, st):
+        for (nm, v) in self._inv(spec, env, k, st):
             st.assume(v)
 
     def _for_with_invariant(self, s, it, spec, env, qual, func):
@@ -1435,9 +1542,10 @@ class Interp(object):
         undeclared = [v for v in assigned - tnames if v not in spec.havoc and not v.startswith("_")]
         locals_in_body = spec.havoc.get("__locals__", ())
         undeclared = [v for v in undeclared if v not in locals_in_body]
-        if undeclared:
-            raise Drift("loop %s of %s modifies undeclared variables %s" % (spec.name, qual, sorted(undeclared)))
         self._check_inv(spec, env, 0, st, "init", qual)
+        for v in list(undeclared) + list(locals_in_body):
+            if v in assigned:
+                env.vars[v] = Poison(v, "%s of %s" % (spec.name, qual))
         branch = st.choose(2, "loop")
         hv = {k: v for k, v in spec.havoc.items() if k != "__locals__"}
         hspec = LoopSpec(spec.invariant, hv)
@@ -1494,9 +1602,10 @@ class Interp(object):
         assigned = self._assigned_names(s.body)
         locals_in_body = spec.havoc.get("__locals__", ())
         undeclared = [v for v in assigned if v not in spec.havoc and v not in locals_in_body]
-        if undeclared:
-            raise Drift("loop %s of %s modifies undeclared variables %s" % (spec.name, qual, sorted(undeclared)))
         self._check_inv(spec, env, 0, st, "init", qual)
+        for v in list(undeclared) + list(locals_in_body):
+            if v in assigned:
+                env.vars[v] = Poison(v, "%s of %s" % (spec.name, qual))
         hv = {k: v for k, v in spec.havoc.items() if k != "__locals__"}
         hspec = LoopSpec(spec.invariant, hv)
         self._havoc(hspec, env, st)
@@ -1733,7 +1842,11 @@ class Interp(object):
             return node.value
         if t is ast.Name:
             try:
-                return env.lookup(node.id)
+                v = env.lookup(node.id)
+                if type(v) is Poison:
+                    raise Drift("variable %r is carried around loop %s but its contract does not mention it"
+                                % (v.name, v.loop))
+                return v
             except KeyError:
                 pass
             if node.id in self.builtin_overrides:
@@ -1809,7 +1922,7 @@ class Interp(object):
             self._note_alloc(l)
             return l
         if t is ast.Set:
-            return set(self._elts(node.elts, env, func))
+            return self.call_value(set, [list(self._elts(node.elts, env, func))], {})
         if t is ast.Dict:
             d = {}
             for k, v in zip(node.keys, node.values):
@@ -1824,12 +1937,25 @@ class Interp(object):
             self._note_alloc(l)
             return l
         if t is ast.SetComp:
-            return set(self._comp(node.generators, 0, env, func, lambda e: self.eval(node.elt, e, func)))
+            # same semantics as set(<generator>): the model decides equality of symbolic elements by case split
+            elems = list(self._comp(node.generators, 0, env, func, lambda e: self.eval(node.elt, e, func)))
+            return self.call_value(set, [elems], {})
         if t is ast.GeneratorExp:
             return self._comp(node.generators, 0, env, func, lambda e: self.eval(node.elt, e, func))
         if t is ast.DictComp:
-            d = dict(self._comp(node.generators, 0, env, func,
-                                lambda e: (self.eval(node.key, e, func), self.eval(node.value, e, func))))
+            pairs = list(self._comp(node.generators, 0, env, func,
+                                    lambda e: (self.eval(node.key, e, func), self.eval(node.value, e, func))))
+            if any(_symbolic_key(k) for (k, _) in pairs):
+                d = {}
+                for (k, v) in pairs:                 # later equal keys overwrite earlier ones (decided symbolically)
+                    hit = None
+                    for key in list(d.keys()):
+                        if self.truth(self.compare(ast.Eq, k, key)):
+                            hit = key
+                            break
+                    d[hit if hit is not None else k] = v
+            else:
+                d = dict(pairs)
             self._note_alloc(d)
             return d
         if t is ast.Lambda:
@@ -1985,6 +2111,16 @@ def explore(run, max_paths=4000):
             results.append(PathResult(st, "unsupported", str(e)))
         except Drift as e:
             results.append(PathResult(st, "drift", str(e)))
+        except (ProgExc, KeyError, IndexError, AttributeError, TypeError, ValueError) as e:
+            # an exception escaping from the harness itself: on an infeasible path (contradictory path condition)
+            # the model objects are in no particular state and nothing is claimed there; otherwise it is a crash
+            try:
+                infeasible = st.solver.check() == z3.unsat
+            except Exception:
+                infeasible = False
+            if not infeasible:
+                raise
+            results.append(PathResult(st, "cut", "infeasible path (ended by %s)" % type(e).__name__))
         finally:
             sym.set_state(None)
         if os.environ.get("PYVC_DEBUG"):
